@@ -103,6 +103,77 @@ impl Assign {
 //@ end
 }
 
+// ---------------- capture ----------------
+impl IntoScalar for BufString {
+    open spec fn as_num(self) -> Option<Num> { None }
+    open spec fn as_chars(self) -> Option<Seq<char>> { Some(buf_chars(self.log@)) }
+}
+/// runtime::Template as its callers see it (proved for the real body in unit `sink`)
+#[verifier::external_body]
+pub struct Template { _p: u8 }
+impl Template {
+    pub uninterp spec fn rid(&self) -> RId;
+    #[verifier::external_body]
+    pub fn render_to(&self, writer: &mut Sink, runtime: &dyn Runtime) -> (r: Result<()>)
+        requires !old(writer).failed@,                                                      // [C10:no_write_after_failure]
+        ensures renders_as_child(self.rid(), runtime.ident(), *old(writer), *final(writer), r)
+    { unimplemented!() }
+}
+pub struct Capture { pub id: KString, pub template: Template }
+impl Capture {
+    #[verifier::external_body]
+    fn trace(&self) -> String { unimplemented!() }
+//@ item crates/lib/src/stdlib/blocks/capture_block.rs :: impl Renderable for Capture::render_to
+//@ props C04 C10 C02
+//@ safety C02 C04
+//@ sig fn render_to(&self, _writer: &mut Sink, runtime: &dyn Runtime) -> (r: Result<()>)
+//@ spec
+    requires
+        !old(_writer).failed@,
+        // the only global write capture is entitled to: its own name (the value is pinned by the ghost assert below)
+        forall|v: VId| #[trigger] runtime.may_set_global(self.id, v),
+    ensures
+        sink_safe(*old(_writer), *final(_writer), r),
+        final(_writer).log@ == old(_writer).log@,                                                  // [C10:capture_writes_nothing_to_the_output]
+//@ edit <<let mut captured = Vec::new();>> => <<let mut captured = Sink::buffer();>> why: the private Vec<u8> buffer is a sink that never fails (stand-in constructor)
+//@ edit <<String::from_utf8(captured).expect("render only writes UTF-8")>> => <<captured.into_string()>> why: the buffer's text (stand-in for the UTF-8 conversion; its expect() is the UTF-8 claim of C02, not decided here)
+//@ ghost before <<runtime.set_global(self.id.clone(), Value::scalar(output));>>
+    proof { assert(output.log@ == seq![Ev::Child(self.template.rid(), runtime.ident())]); }   // capture binds exactly the text its body printed, rendered once  [C04:capture_binds_the_text_of_its_body]
+//@ closure 0 arg_of=trace_with params=
+|| -> (k: KString)
+//@ end
+}
+
+// ---------------- ifchanged ----------------
+#[verifier::external_body]
+pub struct ChangedRegister { _p: u8 }
+impl RegisterDefault for ChangedRegister { }
+impl ChangedRegister {
+    /// compares with the text remembered from the previous call (state behind RefCell: not modelled)
+    #[verifier::external_body]
+    pub fn has_changed(&mut self, rendered: &BufString) -> bool { unimplemented!() }
+}
+pub struct IfChanged { pub if_changed: Template }
+impl IfChanged {
+    #[verifier::external_body]
+    fn trace(&self) -> String { unimplemented!() }
+//@ item crates/lib/src/stdlib/blocks/ifchanged_block.rs :: impl Renderable for IfChanged::render_to
+//@ props C10 C02
+//@ sig fn render_to(&self, writer: &mut Sink, runtime: &dyn Runtime) -> (r: Result<()>)
+//@ spec
+    requires !old(writer).failed@,
+    ensures
+        sink_safe(*old(writer), *final(writer), r),                                                // [C10:ifchanged_failed_sink_is_error]
+        // the body is rendered into a private buffer; the output receives at most one write of that text
+        r is Ok ==> (final(writer).log@ == old(writer).log@ || final(writer).log@ == old(writer).log@.push(Ev::Write("{rendered}"@))),   // [C10:ifchanged_writes_at_most_once]
+        r is Err ==> final(writer).log@ == old(writer).log@,
+//@ edit <<let mut rendered = Vec::new();>> => <<let mut rendered = Sink::buffer();>> why: the private Vec<u8> buffer is a sink that never fails (stand-in constructor)
+//@ edit <<String::from_utf8(rendered).expect("render only writes UTF-8")>> => <<rendered.into_string()>> why: the buffer's text (stand-in for the UTF-8 conversion)
+//@ closure 0 arg_of=trace_with params=
+|| -> (k: KString)
+//@ end
+}
+
 // ---------------- break / continue and the interrupt register ----------------
 //@ item crates/core/src/runtime/runtime.rs :: enum Interrupt
 //@ kind enum
